@@ -51,3 +51,9 @@ Require Import GM.model.InlineParseX GM.model.GfmI GM.model.GfmChecked GM.proofs
 Theorem C04_convert_gfm_safe_urls : forall xc c src o, unsafe c = false -> ConvertModelXC xc c src = Ok o -> Inert o.
 Proof. exact ConvertModelXC_safe_inert. Qed.
 Print Assumptions C04_convert_gfm_safe_urls.
+
+(* and without the run-time check (the GFM parser model yields well-formed trees: props/C05.v) *)
+Require Import GM.proofs.ParseInv GM.proofs.GfmWf.
+Theorem C04_convert_gfm_model_safe_urls : forall xc c src o, unsafe c = false -> bytes_ok src -> ConvertModelX xc c src = Ok o -> Inert o.
+Proof. exact ConvertModelX_safe_inert. Qed.
+Print Assumptions C04_convert_gfm_model_safe_urls.
